@@ -185,9 +185,29 @@ class Stream(object):
 
         Coroutine.
         '''
-        if is_no_body(request, response):
-            return
+        if not is_no_body(request, response):
+            yield from self._read_body(request, response, file=file, raw=raw)
 
+        # The server decides as well: a response in HTTP/1.0 without
+        # keep-alive, or one with "Connection: close", ends the connection
+        # (also when it has no body).
+        connection_field = response.fields.get('Connection')
+        should_close = wpull.protocol.http.util.should_close(
+            request.version, connection_field
+        ) or wpull.protocol.http.util.should_close(
+            response.version, connection_field
+        )
+
+        if not self._keep_alive or should_close:
+            _logger.debug('Not keep-alive. Closing connection.')
+            self.close()
+
+    @asyncio.coroutine
+    def _read_body(self, request, response, file=None, raw=False):
+        '''Read the body with the strategy the framing asks for.
+
+        Coroutine.
+        '''
         if not raw:
             self._setup_decompressor(response)
 
@@ -202,13 +222,6 @@ class Stream(object):
             yield from self._read_body_by_length(response, file)
         else:
             yield from self._read_body_until_close(response, file)
-
-        should_close = wpull.protocol.http.util.should_close(
-            request.version, response.fields.get('Connection'))
-
-        if not self._keep_alive or should_close:
-            _logger.debug('Not keep-alive. Closing connection.')
-            self.close()
 
     @asyncio.coroutine
     def _read_body_until_close(self, response, file):
